@@ -20,15 +20,18 @@ def LoadObs.isErr : LoadObs → Bool
   | .syntaxErr | .typeErr | .otherErr => true
   | _ => false
 
-def sameMap (a b : List KV) : Bool :=
-  a.all (fun kv => lookup b kv.1 == some kv.2) && b.all (fun kv => lookup a kv.1 == some kv.2)
+/-- the loaded entries `kvs` are the entries of `m` up to the replacement of invalid bytes by U+FFFD (which
+    `json.Marshal` performs): every loaded entry comes from one of `m`, and every key of `m` was loaded -/
+def sameMap (kvs m : List KV) : Bool :=
+  kvs.all (fun e => m.any fun kv => (sanitize kv.1, sanitize kv.2) == e) &&
+  m.all (fun kv => kvs.any fun e => e.1 == sanitize kv.1)
 
 /-- `m`: the map handed to `Dump` (keys distinct, values as given); `writtenLen`: how many bytes `Dump` wrote;
     `cut`: how many of them are on disk when `Load` runs -/
 def c10torn (m : List KV) (writtenLen cut : Nat) (obs : LoadObs) : Bool :=
   if cut < writtenLen then obs.isErr
   else match obs with
-    | .ok kvs => sameMap kvs (m.map fun kv => (sanitize kv.1, sanitize kv.2))
+    | .ok kvs => sameMap kvs m
     | _ => false
 
 end Spok.Judge.Json
